@@ -274,6 +274,10 @@ operators and constants below, the shape alternatives are the three structural f
 generated functions; these three theorems state everything the proofs above and below need of them, so
 that a changed operator, constant or structure of either copy breaks a theorem that names the copy. -/
 
+/-- What every lemma on decode1090's copy assumes (`Proofs/DedupEof.lean: CopiesAgree`): its three operators
+    are those of dedup.rs, it flushes at end of file and dedup.rs does not. -/
+theorem copies_agree_ops : CopiesAgree := ⟨fun _ _ => rfl, fun _ _ => rfl, fun _ => rfl, rfl, rfl⟩
+
 /-- **jet1090's loop is the loop modelled**: `(ts * 1e3) as u128`; the heap push happens when
     `cache[&frame].len() == 1`, with expiry `timestamp_ms + threshold`; the expiry loop stops at the first
     entry with `curtime > timestamp_ms`; the arrival is inserted BEFORE the expiry loop runs; nothing is sent
@@ -289,7 +293,7 @@ theorem jet_loop_as_modelled :
     Gen.Dedup.Jet.insertBeforeExpire = true ∧ Gen.Dedup.Jet.pushOnlyOnFirst = true ∧
     Gen.Dedup.Jet.flushAtEof = false ∧
     (∀ w dec hist, runClose w dec hist = (run w dec init hist).2) :=
-  ⟨by decide, rfl, isFirst_eq, expiry_eq, notExpired_eq, rfl, rfl, rfl, runClose_eq⟩
+  ⟨by decide, rfl, isFirst_eq, expiry_eq, notExpired_eq, rfl, rfl, rfl, runClose_eq copies_agree_ops⟩
 
 /-- **decode1090's copy is the loop modelled**: the same operators and constants read from ITS text, the same
     order of insertion and expiry, and a flush at end of file; hence its iteration (`stepGD`, written with
@@ -307,9 +311,8 @@ theorem decode1090_loop_as_modelled :
     (∀ w s a, stepGD w s a = stepG w s a) ∧
     (∀ w dec hist, runFlush w dec hist = (run w dec init hist).2 ++
       (flush (run w dec init hist).1.heap.length (run w dec init hist).1).flatMap (emit dec)) :=
-  ⟨by decide, rfl, fun n => (isFirstD_eq n).trans (isFirst_eq n),
-   fun t w => (expiryD_eq t w).trans (expiry_eq t w),
-   fun c t => (notExpiredD_eq c t).trans (notExpired_eq c t), rfl, rfl, rfl, stepGD_eq, runFlush_eq⟩
+  ⟨by decide, rfl, fun _ => rfl, fun _ _ => rfl, fun c t => by simp [Gen.Dedup.Decode1090.notExpired],
+   rfl, rfl, rfl, stepGD_eq copies_agree_ops, runFlush_eq copies_agree_ops⟩
 
 /-- **the two copies implement the same rule; decode1090 additionally flushes**: as data they differ in
     `flushAtEof` only, their operators are the same functions, and on every history, from every state, the
@@ -322,7 +325,7 @@ theorem copies_agree :
     Gen.Dedup.Decode1090.expiry = Gen.Dedup.Jet.expiry ∧
     Gen.Dedup.Decode1090.notExpired = Gen.Dedup.Jet.notExpired ∧
     (∀ w dec s hist, runD w dec s hist = run w dec s hist) :=
-  ⟨by decide, by decide, rfl, rfl, rfl, rfl, fun w dec s hist => runD_eq w dec hist s⟩
+  ⟨by decide, by decide, rfl, rfl, rfl, rfl, fun w dec s hist => runD_eq copies_agree_ops w dec hist s⟩
 
 /-- The harness writes a time stamp as the whole number of milliseconds it computes with its own copy of
     `(ts * 1e3) as u128`; under the factor found in either source text that is the value the loop computes. -/
@@ -338,7 +341,7 @@ theorem eof_flush_refines (w : Nat) (dec : Frame → Bool) (hist : List Arrival)
     runFlush w dec hist = Spec.Dedup.runFlush w dec hist := by
   have href : ((runG w init hist).1.cache, (runG w init hist).2) = Spec.Dedup.runG w [] hist :=
     runG_refines (w := w) hist (Dedup.inv_init w)
-  rw [runFlush_groups]
+  rw [runFlush_groups copies_agree_ops]
   simp only [Spec.Dedup.runFlush, fileGroups, ← href]
 
 /-- … and with the flush nothing stays behind: the lines of the file are, as a multiset, the members
@@ -347,7 +350,7 @@ theorem eof_flush_conservation (w : Nat) (dec : Frame → Bool) (hist : List Arr
     ∃ groups : List Group, runFlush w dec hist = records dec groups ∧
       hist.Perm (members (groups.filter (fun g => dec g.1)) ++
                  members (groups.filter (fun g => !dec g.1))) := by
-  refine ⟨fileGroups w hist, runFlush_groups w dec hist, ?_⟩
+  refine ⟨fileGroups w hist, runFlush_groups copies_agree_ops w dec hist, ?_⟩
   rw [← members_append]
   exact (fileGroups_members w hist).trans (members_perm (List.filter_append_perm _ _)).symm
 
@@ -361,7 +364,7 @@ theorem eof_conservation (w : Nat) (dec : Frame → Bool) (hist : List Arrival) 
       (∀ g ∈ groups, dec g.1 = true ∧ WellFormed g ∧ g.2.Sublist hist) ∧
       (hist.filter (fun a => dec a.frame)).Perm (members groups) := by
   refine ⟨(fileGroups w hist).filter (fun g => dec g.1), ?_, ?_, ?_⟩
-  · rw [runFlush_groups]; rfl
+  · rw [runFlush_groups copies_agree_ops]; rfl
   · intro g hg
     have := List.mem_filter.mp hg
     exact ⟨this.2, fileGroups_wf w hist g this.1, fileGroups_sublist w hist g this.1⟩
@@ -372,7 +375,7 @@ theorem eof_conservation (w : Nat) (dec : Frame → Bool) (hist : List Arrival) 
     the receptions carried by the records written. -/
 theorem eof_conservation_rx (w : Nat) (dec : Frame → Bool) (hist : List Arrival) :
     ((hist.filter (fun a => dec a.frame)).flatMap (·.rx)).Perm ((runFlush w dec hist).flatMap (·.rx)) := by
-  rw [runFlush_groups, records_rx, ← members_filter dec _ (fileGroups_wf w hist)]
+  rw [runFlush_groups copies_agree_ops, records_rx, ← members_filter dec _ (fileGroups_wf w hist)]
   exact ((fileGroups_members w hist).filter _).flatMap_right _
 
 /-- **exactly once at end of file**: if the receptions of the file are pairwise distinct, every reception of
@@ -420,8 +423,8 @@ theorem jet_records_prefix (w : Nat) (dec : Frame → Bool) (hist : List Arrival
   have hinv := inv_runG (w := w) hist (Dedup.inv_init w)
   have h2 : runFlush w dec hist
       = runClose w dec hist ++ records dec (sortBy (run w dec init hist).1.cache) := by
-    rw [runFlush_groups, runClose_eq, hrun, fileGroups, records_append]
-  refine ⟨runClose_eq w dec hist, h2, ⟨_, h2.symm⟩, ?_⟩
+    rw [runFlush_groups copies_agree_ops, runClose_eq copies_agree_ops, hrun, fileGroups, records_append]
+  refine ⟨runClose_eq copies_agree_ops w dec hist, h2, ⟨_, h2.symm⟩, ?_⟩
   rw [hrun]
   have hwf : ∀ g ∈ sortBy (runG w init hist).1.cache, WellFormed g := fun g hg =>
     hinv.wf g ((sortBy_perm _).subset hg)
